@@ -417,6 +417,8 @@ class Facts:
         import copy
         if not fn.mir or depth <= 0:
             return fn
+        # a kept function that was renamed (recognised by signature) is kept under its new name
+        keep = tuple(keep) + tuple(new.split('::')[-1] for old, new in self.aliases.items() if old.split('::')[-1] in keep)
         key = (fn.id, depth, tuple(keep))
         cache = self.__dict__.setdefault('_inl', {})
         if key in cache:
